@@ -297,14 +297,26 @@ def scenario_complex(rng, nodes, exact_vals):
                          "put %s %d %d" % (ctok(sign * complex(0.0, m)), k, i))
         lines.append("addto %s %d %d" % (ctok(sign * complex(0.0, 3 * tot + 0.5)), k, k))
     zero_rhs = rng.random() < 0.06        # no excitation at all: the solution is the zero vector (not NaN)
+    # sources in time quadrature: pairs (x, j x) and nothing else - a NON-zero right-hand side whose unconjugated square sum b.b is exactly
+    # zero (two-phase windings, point currents at 0 and 90 degrees); every ninth system
+    scenario_complex.calls = getattr(scenario_complex, "calls", 0) + 1
+    quad_rhs = (not zero_rhs) and scenario_complex.calls % 9 == 4 and nodes >= 4
+    bq = [0j] * n
+    if quad_rhs:
+        idx_ = list(range(nodes))
+        rng.shuffle(idx_)
+        for k_ in range(rng.randint(1, max(1, nodes // 4))):
+            x_ = (rng.randint(1, 16) / 8) if exact_vals else rng.uniform(0.1, 5.0)
+            bq[idx_[2 * k_]] = complex(x_, 0.0)
+            bq[idx_[2 * k_ + 1]] = complex(0.0, x_)
     for i in range(n):
         v = complex(dy(rng), dy(rng)) if exact_vals else complex(rng.uniform(-5, 5), rng.uniform(-5, 5))
-        lines.append("setb %d %s" % (i, ctok(0j if zero_rhs else v)))
+        lines.append("setb %d %s" % (i, ctok(0j if zero_rhs else bq[i] if quad_rhs else v)))
     lines.append("dump")
     free = list(range(nodes))
     rng.shuffle(free)
     cons = []
-    for _ in range(rng.randint(0, min(6, nodes // 2))):
+    for _ in range(0 if quad_rhs else rng.randint(0, min(6, nodes // 2))):
         r = rng.random()
         if r < 0.4 and len(free) >= 1:
             i = free.pop()
@@ -337,7 +349,7 @@ def scenario_complex(rng, nodes, exact_vals):
     if flag:
         lines.append("setv " + " ".join(ctok(complex(rng.uniform(-1, 1), rng.uniform(-1, 1))) for _ in range(n)))
     lines.append("solve %d %s %s %d" % (1 if flag else 0, d2tok(PREC), d2tok(LAMBDA), 60 * n + 400))
-    return lines, dict(n=n, nodes=nodes, circuits=ncirc, hint=hint, bw=bw, cons=cons, warm=flag, sign=sign, zero_rhs=zero_rhs)
+    return lines, dict(n=n, nodes=nodes, circuits=ncirc, hint=hint, bw=bw, cons=cons, warm=flag, sign=sign, zero_rhs=zero_rhs, quad_rhs=quad_rhs)
 
 
 def pieces(reply):
@@ -431,6 +443,7 @@ def complex_part(ck, build, mx, stats):
         cst["circuits"] += meta["circuits"]
         cst["warm"] += int(meta["warm"])
         cst["zero_rhs"] = cst.get("zero_rhs", 0) + int(meta["zero_rhs"])
+        cst["quadrature_rhs"] = cst.get("quadrature_rhs", 0) + int(meta["quad_rhs"])
         cst["hints"]["zero" if meta["hint"] == 0 else "band"] += 1
         cst["divisions"] += 4
         for c in meta["cons"]:
